@@ -559,6 +559,30 @@ def register(reg):
                   '(16 texts, run on the real code)', not changed, 'frame', src='offending: %r' % changed[:4])
     units['parse_keyval_content[concrete texts]'] = LemmaUnit('parse_keyval_content[concrete texts]', lemma_keyval,
                                                               functions=[NL + '.parse_keyval_content'])
+    # ---- syntactic frames (all inputs, no bound): the five list operations write no attribute of the list they are called on and
+    # mutate nothing through a local that aliases the list, a node reachable from it or another argument (same analysis as the
+    # C09 frames; aliases handed on through containers are not tracked -- the executed clause above covers the value lists) ------
+    FRAME_FNS = ('filter', 'split_at_node', 'split_at_chars', 'parse_keyval_content', 'get_content_as_chars')
+
+    def lemma_frames18(it):
+        import ast as _ast, os as _os
+        from contracts import purity as _pur
+        ctx = it.ctx
+        rel = 'pylatexenc/latexnodes/nodes.py'
+        tree = _ast.parse(open(_os.path.join(it.program.root, rel), encoding='utf-8').read())
+        cls = [c_ for c_ in _ast.walk(tree) if isinstance(c_, _ast.ClassDef) and c_.name == 'LatexNodeList']
+        found = {f.name: f for c_ in cls for f in c_.body if isinstance(f, _ast.FunctionDef)}
+        for name in FRAME_FNS:
+            ctx.prove('frame:LatexNodeList.%s is present' % name, name in found, 'frame', src=rel)
+            if name not in found:
+                continue
+            fn = found[name]
+            roots = {a.arg for a in fn.args.args + fn.args.kwonlyargs}
+            bad = _pur._self_writes(fn) + _pur._alias_writes(fn, roots) + _pur._mutable_defaults(fn)
+            ctx.prove('frame:LatexNodeList.%s: the list, its nodes and the other arguments are not written to' % name, not bad, 'frame',
+                      src='%s: %s' % (rel, '; '.join('line %d: %s (%s)' % b for b in bad[:6])))
+    units['inputs-are-not-modified[syntactic]'] = LemmaUnit('inputs-are-not-modified[syntactic]', lemma_frames18,
+                                                            functions=[NL + '.' + n for n in FRAME_FNS])
     for k in units:
         contracts.REPLAYERS[k] = replay
     contracts.EXTRA_ASSUMPTIONS['C18'] = [
